@@ -19,6 +19,12 @@
 #ifndef NMAXLOG
 #define NMAXLOG 20
 #endif
+#ifndef NBDATA
+#define NBDATA 4
+#endif
+#ifndef NBRHS
+#define NBRHS 2
+#endif
 #define NMAX (1L << NMAXLOG)
 
 typedef struct TbfCellsContainer CellGroup;
@@ -56,7 +62,7 @@ const void *ghost_sorted_base;    /* the index array whose sortedness may be ins
 #define SORTED_INST_CELLS(arr, i, w) ((arr)[i].spaceIndex >= 0 && ((i) < (w) ? (arr)[i].spaceIndex < (arr)[w].spaceIndex : 1) && ((w) < (i) ? (arr)[w].spaceIndex < (arr)[i].spaceIndex : 1))
 
 /* structural well-formedness of the symbolic part of a cell group (pointer validity + counts) */
-static inline _Bool cells_symb_wf(const CellGroup *g)
+static inline _Bool cells_symb_wf_full(const CellGroup *g)
 {
   return __CPROVER_r_ok(g, sizeof(*g)) && g->objectData.nbItemsInBlocks != 0 &&
          __CPROVER_r_ok(g->objectData.nbItemsInBlocks, 2 * sizeof(long)) &&
@@ -65,7 +71,7 @@ static inline _Bool cells_symb_wf(const CellGroup *g)
          g->objectData.nbItemsInBlocks[1] == CG_N(g) &&
          __CPROVER_r_ok(g->objectData.blockRawPtrs[1], CG_N(g) * sizeof(CellHeader));
 }
-static inline _Bool cells_data_wf(const CellGroup *g)
+static inline _Bool cells_data_wf_full(const CellGroup *g)
 {
   return g->objectMultipole.nbItemsInBlocks != 0 && __CPROVER_r_ok(g->objectMultipole.nbItemsInBlocks, sizeof(long)) &&
          g->objectMultipole.nbItemsInBlocks[0] == CG_N(g) &&
@@ -74,7 +80,7 @@ static inline _Bool cells_data_wf(const CellGroup *g)
          g->objectLocal.nbItemsInBlocks[0] == CG_N(g) &&
          __CPROVER_w_ok(g->objectLocal.blockRawPtrs[0], CG_N(g) * sizeof(struct VerifLocal));
 }
-static inline _Bool parts_symb_wf(const PartGroup *g)
+static inline _Bool parts_symb_wf_full(const PartGroup *g)
 {
   return __CPROVER_r_ok(g, sizeof(*g)) && g->objectData.nbItemsInBlocks != 0 &&
          __CPROVER_r_ok(g->objectData.nbItemsInBlocks, 4 * sizeof(long)) &&
@@ -83,6 +89,25 @@ static inline _Bool parts_symb_wf(const PartGroup *g)
          g->objectData.nbItemsInBlocks[1] == PG_N(g) &&
          __CPROVER_r_ok(g->objectData.blockRawPtrs[1], PG_N(g) * sizeof(LeafHeader));
 }
+
+/* Two tiers.  The unit that ENFORCES the accessor contracts (containers) uses the full structural predicates.
+ * Client units that only USE the contracts at call sites compile with -DLIGHT_WF: there a group is well-formed
+ * iff it is one of the groups the harness built with mk_cells/mk_parts and registered (greg[]); registration
+ * implies the full predicate by construction, and it is stable because no assigns clause of the code under
+ * proof contains a symbolic block (checked frames). */
+const void *greg[6];
+#define REGISTERED(g) ((const void *)(g) == greg[0] || (const void *)(g) == greg[1] || (const void *)(g) == greg[2] || (const void *)(g) == greg[3] || (const void *)(g) == greg[4] || (const void *)(g) == greg[5])
+#ifdef LIGHT_WF
+#define cells_symb_wf(g) (REGISTERED(g) && 0 <= CG_N(g) && CG_N(g) <= NMAX)
+#define cells_data_wf(g) REGISTERED(g)
+#define parts_symb_wf(g) (REGISTERED(g) && 0 <= PG_N(g) && PG_N(g) <= NMAX)
+#define parts_wf(g) (REGISTERED(g) && 0 <= PG_N(g) && PG_N(g) <= NMAX && 0 <= PG_NP(g) && PG_NP(g) <= NMAX)
+#else
+#define cells_symb_wf(g) cells_symb_wf_full(g)
+#define cells_data_wf(g) cells_data_wf_full(g)
+#define parts_symb_wf(g) parts_symb_wf_full(g)
+#define parts_wf(g) parts_wf_full(g)
+#endif
 
 /* harness helpers: build a structurally well-formed group with n cells and arbitrary content */
 static inline void mk_cells(CellGroup *g, long n)
@@ -109,6 +134,7 @@ static inline void mk_cells(CellGroup *g, long n)
   g->objectMultipole.blockRawPtrs[0] = (unsigned char *)m;
   g->objectLocal.nbItemsInBlocks = nbl;
   g->objectLocal.blockRawPtrs[0] = (unsigned char *)l;
+  for(int r = 0; r < 6; ++r) if(greg[r] == 0) { greg[r] = g; break; }
 }
 static inline void mk_parts_symb(PartGroup *g, long n)
 {
@@ -126,6 +152,7 @@ static inline void mk_parts_symb(PartGroup *g, long n)
 }
 
 /* ---- accessor contracts: cells ---- */
+#ifdef GROUPS_INTERNALS
 typedef struct TbfMemoryVector_CellHeader_64__ViewerConst CellVecViewerConst;
 typedef struct TbfMemoryVector_LeafHeader_64__ViewerConst LeafVecViewerConst;
 
@@ -146,6 +173,8 @@ __CPROVER_ensures(__CPROVER_return_value == &self->ptrToData[inIdx])
 __CPROVER_ensures((const void *)self->ptrToData != ghost_sorted_base || (self->ptrToData[inIdx].spaceIndex >= 0 && (!(0 <= ghost_W && ghost_W < self->nbItems) || SORTED_INST_CELLS(self->ptrToData, inIdx, ghost_W))))
 #endif
 __CPROVER_assigns();
+
+#endif
 
 long TbfCellsContainer__getNbCells(const CellGroup *self)
 __CPROVER_requires(cells_symb_wf(self))
@@ -195,6 +224,132 @@ __CPROVER_assigns();
 const struct VerifLocal *TbfCellsContainer__getCellLocal__c(const CellGroup *self, const long inIdxCell)
 __CPROVER_requires(cells_symb_wf(self) && cells_data_wf(self) && 0 <= inIdxCell && inIdxCell < CG_N(self))
 __CPROVER_ensures(__CPROVER_return_value == &CG_LOC(self)[inIdxCell])
+__CPROVER_assigns();
+
+/* ---- accessor contracts: particle groups ---- */
+#define SPEC_LD64(x) ((x) + ((64 - (x) % 64) % 64))
+#define PG_NB3(g) ((g)->objectData.nbItemsInBlocks[3])
+#define PG_LD(g) SPEC_LD64(8 * PG_NB3(g))
+#define PG_RHS_NB(g) ((g)->objectRhs.nbItemsInBlocks[0])
+#define PG_RHS_LD(g) SPEC_LD64(8 * PG_RHS_NB(g))
+#define PG_OFF(g, i) (PG_LEAVES(g)[i].offSet)
+#define PG_CNT(g, i) (PG_LEAVES(g)[i].nbParticles)
+#define PG_DATA_PTR(g, leaf, v) ((double *)((unsigned char *)PG_DATA(g) + (v) * PG_LD(g)) + PG_OFF(g, leaf))
+#define PG_RHS_PTR(g, leaf, v) ((long *)((unsigned char *)PG_RHS(g) + (v) * PG_RHS_LD(g)) + PG_OFF(g, leaf))
+/* instance of "every leaf's particle range lies inside the group's particle arrays" */
+#define LEAF_INST(g, i) (0 <= PG_OFF(g, i) && 0 <= PG_CNT(g, i) && PG_CNT(g, i) <= PG_NP(g) && PG_OFF(g, i) <= PG_NP(g) - PG_CNT(g, i) && PG_IDX(g, i) >= 0)
+/* leaf cell group mirrors the particle group cell by cell (C07; consumed as instances) */
+const void *ghost_mirror_cells;
+#ifdef ELIM_WF
+#define ENS_MIRROR(pg, i) __CPROVER_ensures(ghost_mirror_cells == 0 || ((const CellHeader *)ghost_mirror_cells)[i].spaceIndex == PG_IDX(pg, i))
+#else
+#define ENS_MIRROR(pg, i)
+#endif
+#ifdef ELIM_WF
+#define ENS_LEAF_INST(g, i) __CPROVER_ensures(LEAF_INST(g, i))
+#else
+#define ENS_LEAF_INST(g, i)
+#endif
+
+static inline _Bool parts_wf_full(const PartGroup *g)
+{
+  return parts_symb_wf_full(g) && 0 <= PG_NP(g) && PG_NP(g) <= NMAX &&
+         g->objectData.nbItemsInBlocks[2] == PG_NP(g) && g->objectData.nbItemsInBlocks[3] == PG_NP(g) * NBDATA &&
+         __CPROVER_r_ok(g->objectData.blockRawPtrs[2], PG_NP(g) * sizeof(long)) &&
+         __CPROVER_r_ok(g->objectData.blockRawPtrs[3], NBDATA * PG_LD(g)) &&
+         g->objectRhs.nbItemsInBlocks != 0 && __CPROVER_r_ok(g->objectRhs.nbItemsInBlocks, sizeof(long)) &&
+         PG_RHS_NB(g) == PG_NP(g) * NBRHS && __CPROVER_w_ok(g->objectRhs.blockRawPtrs[0], NBRHS * PG_RHS_LD(g));
+}
+static inline void mk_parts(PartGroup *g, long n, long np)
+{
+  mk_parts_symb(g, n);
+  __CPROVER_assume(0 <= np && np <= NMAX);
+  ((PartsHeader *)g->objectData.blockRawPtrs[0])->nbParticles = np;
+  g->objectData.nbItemsInBlocks[2] = np;
+  g->objectData.nbItemsInBlocks[3] = np * NBDATA;
+  long *pi = malloc(np * sizeof(long));
+  double *pd = malloc(NBDATA * PG_LD(g));
+  long *nbr = malloc(sizeof(long));
+  *nbr = np * NBRHS;
+  g->objectRhs.nbItemsInBlocks = nbr;
+  long *pr = malloc(NBRHS * PG_RHS_LD(g));
+  g->objectData.blockRawPtrs[2] = (unsigned char *)pi;
+  g->objectData.blockRawPtrs[3] = (unsigned char *)pd;
+  g->objectRhs.blockRawPtrs[0] = (unsigned char *)pr;
+  for(int r = 0; r < 6; ++r) if(greg[r] == 0) { greg[r] = g; break; }
+}
+
+long TbfParticlesContainer__getNbLeaves(const PartGroup *self)
+__CPROVER_requires(parts_symb_wf(self))
+__CPROVER_ensures(__CPROVER_return_value == PG_N(self))
+__CPROVER_assigns();
+
+long TbfParticlesContainer__getNbParticles(const PartGroup *self)
+__CPROVER_requires(parts_symb_wf(self))
+__CPROVER_ensures(__CPROVER_return_value == PG_NP(self))
+__CPROVER_assigns();
+
+long TbfParticlesContainer__getStartingSpacialIndex(const PartGroup *self)
+__CPROVER_requires(parts_symb_wf(self))
+__CPROVER_ensures(__CPROVER_return_value == PG_START(self))
+__CPROVER_assigns();
+
+long TbfParticlesContainer__getEndingSpacialIndex(const PartGroup *self)
+__CPROVER_requires(parts_symb_wf(self))
+__CPROVER_ensures(__CPROVER_return_value == PG_END(self))
+__CPROVER_assigns();
+
+long TbfParticlesContainer__getLeafSpacialIndex(const PartGroup *self, const long inIdxLeaf)
+__CPROVER_requires(parts_symb_wf(self) && 0 <= inIdxLeaf && inIdxLeaf < PG_N(self))
+__CPROVER_ensures(__CPROVER_return_value == PG_IDX(self, inIdxLeaf))
+ENS_LEAF_INST(self, inIdxLeaf)
+ENS_MIRROR(self, inIdxLeaf)
+__CPROVER_assigns();
+
+const LeafHeader *TbfParticlesContainer__getLeafSymbData(const PartGroup *self, const long inIdxLeaf)
+__CPROVER_requires(parts_symb_wf(self) && 0 <= inIdxLeaf && inIdxLeaf < PG_N(self))
+__CPROVER_ensures(__CPROVER_return_value == &PG_LEAVES(self)[inIdxLeaf])
+ENS_LEAF_INST(self, inIdxLeaf)
+__CPROVER_assigns();
+
+long TbfParticlesContainer__getNbParticlesInLeaf(const PartGroup *self, const long inIdxLeaf)
+__CPROVER_requires(parts_symb_wf(self) && 0 <= inIdxLeaf && inIdxLeaf < PG_N(self))
+__CPROVER_ensures(__CPROVER_return_value == PG_CNT(self, inIdxLeaf))
+ENS_LEAF_INST(self, inIdxLeaf)
+__CPROVER_assigns();
+
+const long *TbfParticlesContainer__getParticleIndexes__c(const PartGroup *self, const long inIdxLeaf)
+__CPROVER_requires(parts_wf(self) && 0 <= inIdxLeaf && inIdxLeaf < PG_N(self))
+__CPROVER_ensures(__CPROVER_return_value == PG_PIDX(self) + PG_OFF(self, inIdxLeaf))
+ENS_LEAF_INST(self, inIdxLeaf)
+__CPROVER_assigns();
+
+long *TbfParticlesContainer__getParticleIndexes(PartGroup *self, const long inIdxLeaf)
+__CPROVER_requires(parts_wf(self) && 0 <= inIdxLeaf && inIdxLeaf < PG_N(self))
+__CPROVER_ensures(__CPROVER_return_value == PG_PIDX(self) + PG_OFF(self, inIdxLeaf))
+ENS_LEAF_INST(self, inIdxLeaf)
+__CPROVER_assigns();
+
+#define ENS_DATA_PTRS(g, i) __CPROVER_ensures(__CPROVER_return_value.d[0] == PG_DATA_PTR(g, i, 0) && (NBDATA < 2 || __CPROVER_return_value.d[NBDATA > 1 ? 1 : 0] == PG_DATA_PTR(g, i, 1)) && \
+   (NBDATA < 3 || __CPROVER_return_value.d[NBDATA > 2 ? 2 : 0] == PG_DATA_PTR(g, i, 2)) && (NBDATA < 4 || __CPROVER_return_value.d[NBDATA > 3 ? 3 : 0] == PG_DATA_PTR(g, i, 3)))
+#define ENS_RHS_PTRS(g, i) __CPROVER_ensures(__CPROVER_return_value.d[0] == PG_RHS_PTR(g, i, 0) && (NBRHS < 2 || __CPROVER_return_value.d[NBRHS > 1 ? 1 : 0] == PG_RHS_PTR(g, i, 1)))
+#define CAT2_(a, b) a##b
+#define CAT2(a, b) CAT2_(a, b)
+#define ARR_CDATA CAT2(std_array_cdouble_p_, NBDATA)
+#define ARR_DATA CAT2(std_array_double_p_, NBDATA)
+#define ARR_CRHS CAT2(std_array_clong_p_, NBRHS)
+#define ARR_RHS CAT2(std_array_long_p_, NBRHS)
+
+struct ARR_CDATA TbfParticlesContainer__getParticleData__c(const PartGroup *self, const long inIdxLeaf)
+__CPROVER_requires(parts_wf(self) && 0 <= inIdxLeaf && inIdxLeaf < PG_N(self))
+ENS_DATA_PTRS(self, inIdxLeaf)
+ENS_LEAF_INST(self, inIdxLeaf)
+__CPROVER_assigns();
+
+struct ARR_RHS TbfParticlesContainer__getParticleRhs(PartGroup *self, const long inIdxLeaf)
+__CPROVER_requires(parts_wf(self) && 0 <= inIdxLeaf && inIdxLeaf < PG_N(self))
+ENS_RHS_PTRS(self, inIdxLeaf)
+ENS_LEAF_INST(self, inIdxLeaf)
 __CPROVER_assigns();
 
 /* ---- lookups (C16).  Soundness needs no sortedness; completeness is stated for the witness ghost_W. */
